@@ -87,6 +87,7 @@ def build(tier):
         for (op, ar) in OPS:
             for ext in (False, True):
                 if ext and pp in ("cop", "bic") : continue     # no specials to handle: the ext layer is the native layer
+                if w == 64 and not TYPES[tt][2] and op in HEAVY | {"mul_2exp"}: continue   # unsigned 64 bit: exact products need more than the 128-bit spec arithmetic (not covered, stated)
                 if w >= 32 and op in HEAVY:
                     # wide multiplication / division circuits are beyond every installed SAT back end on the full domain
                     # (DESIGN.md section 2.6): bounded stand-ins, one operand at a time restricted to |v| < 2^B, labelled bounded
@@ -101,9 +102,9 @@ def build(tier):
                         tasks.append(op_task(u, tt, pp, op, ar, ext, extra_pre="x < (1ULL << 16)" if not sg else "(int%d_t)x < 65536" % w, tag="bounded-x", bounded={"note": "operand below 2^16"}, timeout=1500))
                         continue
                     if w == 64 and op in ("div", "idiv", "rem"): continue   # 64-bit divider: no back end finishes even for constant divisors (not covered, stated)
+                    if w == 64 and op in ("add_mul", "sub_mul") and tier == "quick": continue   # ~13 min each: thorough tier only
+                    # (with the FIRST operand constant and the second free, `MAX / y' needs a full divider: does not finish at 32 or 64 bit)
                     tasks.append(op_task(u, tt, pp, op, ar, ext, extra_pre=among("y"), tag="bounded-y", bounded={"note": "second operand " + note + "; first operand and accumulator arbitrary"}, timeout=1500))
-                    if op in ("mul", "add_mul", "sub_mul") and w < 64:     # at 64 bits `MAX / y' with symbolic y does not finish
-                        tasks.append(op_task(u, tt, pp, op, ar, ext, extra_pre=among("x"), tag="bounded-x", bounded={"note": "first operand " + note + "; second operand and accumulator arbitrary"}, timeout=1500))
                     continue
                 tasks.append(op_task(u, tt, pp, op, ar, ext))
         for (op, ar, ext) in PREDS:
